@@ -2,7 +2,7 @@
    sumbool, sumor and the inlined andb/orb; N, Z, positive, nat stay the extracted inductives. *)
 From Coq Require Import Extraction ExtrOcamlBasic.
 From Verif Require Import Lib.Base Lib.Utf8 Lib.GoStr Model.Cfg Gen.Tables Gen.Options Model.Sets Model.Percent
-     Spec.Entry Model.Url Model.Preds Model.Host Model.Machine Model.Api Model.Canon Model.Obs.
+     Spec.Entry Model.Url Model.Preds Model.Host Model.Machine Model.Api Model.Canon Model.DecodeOnePass Model.Obs.
 
 Extraction Language OCaml.
 Extraction "model.ml"
@@ -12,7 +12,7 @@ Extraction "model.ml"
   RuneShouldBeEncoded RuneNotInSet isURLCodePoint pes_set pes_clear
   Parse ParseRef UrlParse history obs_pres obs_cres ProfileParse ProfileParseRef
   parseHost parseIPv4 parseIPv6 ipv6_parse IPv6String IPv4String parseOpaqueHost endsInANumber parseIPv4Number_nonempty
-  ToASCII PercentEncodeString DecodePercentEncoded percentEncodeBytes decodeEncode repeatedDecode
+  ToASCII PercentEncodeString DecodePercentEncoded percentEncodeBytes decodeEncode repeatedDecode repeatedDecode1
   sp_init sp_string trim_c0space remove_tabnl obs_url verr_obs empty_url
   utf8_enc runes decode valid_utf8 itoa fmt_hex inv_obs acc_obs
   spec_ipv4_number spec_ends_in_a_number spec_ipv4_parse spec_ipv4_serialize spec_ipv6_parse spec_ipv6_serialize spec_in_set.
